@@ -181,7 +181,7 @@ Proof.
   induction s as [|l r IH]; intros W Hne; [congruence|]. inv W.
   destruct r as [|l2 r2].
   - cbn [bin_init]. rewrite new_iter_spec by assumption. eexists. split; [reflexivity|].
-    split; [exact I|]. cbn. now rewrite allkeys_single.
+    split; [exact I|]. rewrite allkeys_single. reflexivity.
   - destruct (IH H2 ltac:(discriminate)) as (b & Eb & Wb & Pb).
     cbn [bin_init]. rewrite new_iter_spec by assumption.
     cbn [bin_init] in Eb. rewrite Eb.
